@@ -59,6 +59,34 @@ def collision_programs():
     return out
 
 
+def history_programs():
+    """values of equal type and content compare equal HOWEVER THEY CAME TO HAVE THAT CONTENT: a text written as a literal, built by
+    concatenation, by `string()`, read out of another text, or MODIFIED IN PLACE (one character, several, none: the length
+    changes) — compared in both directions with `== != < <= > >=`, with itself, through an alias, after repeated modification;
+    floats computed vs written; a cache of anything derived from the content (a hash, a length) that is not refreshed by
+    an in-place change shows up here"""
+    out = []
+    target = "doobar"
+    makers = ['stel s = "doobar";', 'stel s = "doo" + "bar";', 'stel s = "foobar"; s[0] = "d";', 'stel s = "dXr"; s[1] = "ooba";',
+              'stel s = "dooQbar"; s[3] = "";', 'stel s = "xoobax"; s[0] = "d"; s[-1] = "r";', 'stel s = "d"; s[0] = "doobar";',
+              'stel s = "foobar"; stel i = 0; zolang i < 3 { s[0] = "x"; i += 1 }; s[0] = "d";', 'stel s = string("doobar");',
+              'stel b = "zdoobarz"; stel s = b[1] + b[2] + b[3] + b[4] + b[5] + b[6];', 'functie m() { stel t = "foobar"; t[0] = "d"; t }; stel s = m();']
+    for mk in makers:
+        out.append('%s [s == "%s", "%s" == s, s != "%s", "%s" != s, s == s, s < "%s", s <= "%s", s > "%s", s >= "%s", lengte(s), s]'
+                   % (mk, target, target, target, target, target, target, target, target))
+        out.append('%s stel a = s; stel f = "%s"; [a == f, f == a, a == s, [s][0] == f, s == "doobaz", s == "doobar ", s < "doobas", "doobaq" < s]' % (mk, target))
+        out.append('%s functie eq(x, y) { x == y }; [eq(s, "%s"), eq("%s", s), eq(s, s)]' % (mk, target, target))
+        for mk2 in makers[2:6]:
+            out.append('%s %s [s == u, u == s, s != u]' % (mk, mk2.replace("stel s", "stel u").replace("s[", "u[")))
+    # non-ASCII content, modified at a multi-byte character
+    out.append('stel s = "aéb"; s[1] = "日"; [s == "a日b", "a日b" == s, lengte(s), s != "a日b"]')
+    out.append('stel s = "a日b"; s[1] = "é"; stel t = "aéb"; [s == t, t == s, s < "aéc"]')
+    # floats and integers: computed vs written
+    out += ["[0.5 + 0.25 == 0.75, 0.75 == 0.5 + 0.25, 1.5 * 2.0 == 3.0, 6 * 7 == 42, 42 == 6 * 7, 0.0 == 0.0 * (0.0 - 1.0)]",
+            "stel a = [1.5]; a[0] = a[0] + 1.0; [a[0] == 2.5, 2.5 == a[0]]"]
+    return out
+
+
 def run(res, tier, rng, table_diffs=()):
     from .common_diff import run_cases
     lit = []
@@ -67,7 +95,7 @@ def run(res, tier, rng, table_diffs=()):
         if v >= 0:
             lit.append(("int-literal", "%d" % v))
             lit.append(("int-literal", "[%d, %d == %d, %d - 1, string(%d), type(%d)]" % (v, v, v + 1 if v + 1 < 2 ** 60 else v, v, v, v)))
-    run_cases(res, "C15", lit + [("collision", p) for p in collision_programs()])
+    run_cases(res, "C15", lit + [("collision", p) for p in collision_programs()] + [("history", p) for p in history_programs()])
     sp = specs(tier, rng)
     reqs = ["obj enc " + s for s in sp]
     # arrays
